@@ -700,3 +700,77 @@ Proof.
   unfold canonicalize, canonicalize_c. pose proof (Permutation_length (isort_perm dcmp l)) as P.
   destruct keep; [lia|]. rewrite dedup_eq. pose proof (dedup_spec_length (isort_c dcmp l)). lia.
 Qed.
+
+(* ------------------------------------------------------------------ the walk of Run over recorded edges *)
+From Coq Require Import Relations.Relation_Operators Relations.Operators_Properties.
+Local Open Scope nat_scope.
+Section RunWalkProofs.
+  Variable deps_of : nat -> list nat.
+  Notation reachable := (x_reachable deps_of).
+
+  Definition x_inv (st : xstate) : Prop :=
+    (forall c d, In (c, d) (x_edges st) -> In d (deps_of c)) /\
+    (forall t d, In t (x_done st) -> In d (deps_of t) -> In d (x_done st) /\ In (t, d) (x_edges st)).
+
+  Lemma x_inv_reachable : forall st, reachable st -> x_inv st.
+  Proof.
+    intros st H. induction H as [|st e Hr [IH1 IH2] Hen].
+    - split; intros; contradiction.
+    - destruct e as [c d|t]; cbn in Hen |- *.
+      + destruct Hen as [Hd Hc]. split.
+        * intros c' d' [Heq|Hin]; [inversion Heq; subst; exact Hd | apply IH1; exact Hin].
+        * intros t d' Ht Hd'. destruct (IH2 t d' Ht Hd') as [A B]. split; [exact A | right; exact B].
+      + destruct Hen as [Hnt Hall]. split.
+        * exact IH1.
+        * intros t' d [Heq|Ht'] Hd.
+          -- subst t'. destruct (Hall d Hd) as [A B]. split; [right; exact A | exact B].
+          -- destruct (IH2 t' d Ht' Hd) as [A B]. split; [right; exact A | exact B].
+  Qed.
+
+  Lemma x_walk_is_closure : forall st roots, reachable st ->
+    (forall r, In r roots -> In r (x_done st)) ->
+    forall t, x_visited st roots t <-> d_reach deps_of roots t.
+  Proof.
+    intros st roots Hr Hroots t. destruct (x_inv_reachable st Hr) as [I1 I2]. split.
+    - intros [r [Hin Hc]]. exists r. split; [exact Hin|]. clear Hin.
+      induction Hc as [a b Hab|a|a b c _ IHab _ IHbc].
+      + apply rt_step. apply I1. exact Hab.
+      + apply rt_refl.
+      + eapply rt_trans; eassumption.
+    - intros [r [Hin Hc]]. exists r. split; [exact Hin|].
+      assert (Hdone : In r (x_done st)) by (apply Hroots; exact Hin). clear Hin.
+      assert (G : clos_refl_trans nat (x_edge st) r t /\ In t (x_done st)).
+      { apply clos_rt_rt1n in Hc. induction Hc as [a|a b c Hab _ IH].
+        - split; [apply rt_refl | exact Hdone].
+        - destruct (I2 a b Hdone Hab) as [Hb Hedge]. destruct (IH Hb) as [P Q].
+          split; [eapply rt_trans; [apply rt_step; exact Hedge | exact P] | exact Q]. }
+      exact (proj1 G).
+  Qed.
+
+  Lemma x_walk_history_independent : forall st1 st2 roots, reachable st1 -> reachable st2 ->
+    (forall r, In r roots -> In r (x_done st1)) -> (forall r, In r roots -> In r (x_done st2)) ->
+    forall t, x_visited st1 roots t <-> x_visited st2 roots t.
+  Proof.
+    intros st1 st2 roots H1 H2 R1 R2 t.
+    rewrite (x_walk_is_closure st1 roots H1 R1 t), (x_walk_is_closure st2 roots H2 R2 t). reflexivity.
+  Qed.
+End RunWalkProofs.
+
+(* non-vacuity: a, b both depend on c; the history completes c for a first, then b finds c done *)
+Definition ex_deps (t : nat) : list nat := match t with 0 => [2] | 1 => [2] | _ => [] end.
+Definition ex_hist : list xevent := [XEdge 0 2; XComplete 2; XComplete 0; XEdge 1 2; XComplete 1].
+Lemma ex_hist_reachable : x_reachable ex_deps (fold_left x_apply ex_hist x_init).
+Proof.
+  cbn [ex_hist fold_left].
+  apply xr_step. apply xr_step. apply xr_step. apply xr_step. apply xr_step. apply xr_init.
+  - cbn. split; [tauto | intros H; exact H].
+  - cbn. split; [intros H; exact H | intros d H; contradiction].
+  - cbn. split; [intros [H|H]; [discriminate | exact H] |].
+    intros d [H|H]; [subst d; split; [left; reflexivity | left; reflexivity] | contradiction].
+  - cbn. split; [tauto | intros [H|[H|H]]; [discriminate | discriminate | exact H]].
+  - cbn. split; [intros [H|[H|H]]; [discriminate | discriminate | exact H] |].
+    intros d [H|H]; [subst d; split; [right; left; reflexivity | left; reflexivity] | contradiction].
+Qed.
+(* ... and in that state a Run of root 1 alone visits 2 although 2 was a cache hit for it *)
+Lemma ex_hist_visits : x_visited (fold_left x_apply ex_hist x_init) [1] 2.
+Proof. exists 1. split; [left; reflexivity | apply rt_step; cbn; left; reflexivity]. Qed.
